@@ -155,7 +155,12 @@ def user_sources(ctx, rng, idx):
     s0 = gen.scenario1d(rng, mname=mname, mach_max=1.5, ratio=5.0, intdata=0.15, big=0.03, lscale=0.1)
     src = _sources(rng, neq, sub)
     mp = dict(s0.mparams)
+    src_declared = list(src)
     model1 = euler.euler1d(gamma=mp["gamma"], source=src) if mname == "euler1d" else shw.shallowwater1d(g=mp["g"], source=src)
+    # the list the caller declared is HIS: a model that edits it in place hands its own (combined, bound) callables to whoever uses that
+    # list next -- another model, the caller's own bookkeeping
+    if not ctx.true(mname, len(src) == len(src_declared) and all(a_ is b_ for a_, b_ in zip(src, src_declared)), "%s/callers-source-list-modified-by-the-model" % mname, None, cls=mname):
+        src = src_declared
     gen.maybe_decoy(rng)
     disc1 = md.fvm(model1, s0.mesh, s0.num, numflux=s0.flux, bcL=s0.bcL, bcR=s0.bcR)
     ctx.describe(sources=[c.desc() if c else None for c in src], **s0.desc())
@@ -239,7 +244,10 @@ def nozzle_user(ctx, rng, idx):
     src = _sources(rng, 3, sub)
     ctx.describe(section=sec.desc, sources=[c.desc() if c else None for c in src], **s0.desc())
     m0 = euler.nozzle(sec, gamma=gam)
+    src_declared = list(src)
     m1 = euler.nozzle(sec, gamma=gam, source=src)
+    if not ctx.true("nozzle-user-sources", len(src) == len(src_declared) and all(a_ is b_ for a_, b_ in zip(src, src_declared)), "nozzle/callers-source-list-modified-by-the-model", None, cls="nozzle-user-sources"):
+        src = src_declared
     gen.maybe_decoy(rng)
     d0 = md.fvm(m0, s0.mesh, s0.num, numflux=s0.flux, bcL=s0.bcL, bcR=s0.bcR)
     d1 = md.fvm(m1, s0.mesh, s0.num, numflux=s0.flux, bcL=s0.bcL, bcR=s0.bcR)
